@@ -6,9 +6,10 @@ import json, os, sys
 VERIF = os.path.dirname(os.path.dirname(os.path.abspath(__file__)))
 sys.path.insert(0, os.path.join(VERIF, "analysis"))
 import export, facts as F
-out = {"params": {}, "upvars": {}}
+out = {"params": {}, "upvars": {}, "adts": []}
 for cfg in ("memmap", "std", "alloc", "memmap-tracing"):
     fx = F.Facts(export.export(cfg))
+    out["adts"] = sorted(set(out["adts"]) | set(fx.adts))
     for b in fx.own:
         names = [b.locals[i + 1]["name"] or "arg%d" % i for i in range(b.nargs)]
         out["params"].setdefault(b.path, names)
